@@ -80,6 +80,23 @@ fn core(prop: &str, tier: u8) -> &'static Vec<SProg> {
             v.extend(enumerate(3, 3, &*rw, &|l, th| well_formed(l, th) && (th == 0 || l.len() == 2)));
         }
         "C07" => v.extend(enumerate(2, if tier == 0 { 3 } else { 4 }, &*al, &well_formed)),
+        "C04" => {
+            // guarded blocks over one cell: every assignment of {read guard + read, write guard + write, mutex + write,
+            // mutex + read} to three threads, and to two threads with two blocks each (lock hand-over edges of every kind,
+            // overlapping read guards released in either order)
+            use SOp::*;
+            let blocks: [Vec<SOp>; 4] = [vec![Read, CellR(0), RwUnlock], vec![Write, CellW(0), RwUnlock], vec![Lock(0), CellW(0), Unlock(0)], vec![Lock(0), CellR(0), Unlock(0)]];
+            for a in 0..4 {
+                for b in 0..4 {
+                    for c in 0..4 {
+                        v.push(sp(vec![blocks[a].clone(), blocks[b].clone(), blocks[c].clone()]));
+                        for d in 0..4 {
+                            v.push(sp(vec![[blocks[a].clone(), blocks[b].clone()].concat(), [blocks[c].clone(), blocks[d].clone()].concat()]));
+                        }
+                    }
+                }
+            }
+        }
         "C08" => v.extend(enumerate(2, 3, &*al, &well_formed)),
         "C09" => {
             v.extend(enumerate(2, 3, &*al, &|l, th| well_formed(l, th) && (th == 0 || l.len() <= 2) && distinct_sends(l)));
